@@ -197,8 +197,18 @@ fn run_matrix(sim: &Sim, idx: u64) {
     sim.nontrivial();
     sim.sample(|| format!("{c:?}"));
     sim.ev(|| format!("config: cell {} {c:?}", idx % GRID));
+    // the endpoint's *origin* (the `:authority` / scheme override for requests) may be set, before
+    // the TLS configuration; it is not the peer's name. Variant 2: the URI names a host the
+    // certificate is not for, the origin the one it is for.
+    let origin_variant = sim.weighted(&[4, 1, 1]);
+    let uri_host_wrong = origin_variant == 2;
+    sim.ev(|| format!("config: origin_variant={origin_variant}"));
     let chain_ok = c.roots == Roots::Right;
-    let name_ok = c.domain != Domain::ConfiguredNonMatching;
+    let name_ok = match c.domain {
+        Domain::ConfiguredMatching => true,
+        Domain::ConfiguredNonMatching => false,
+        Domain::FromUri => !uri_host_wrong,
+    };
     let h2_ok = c.alpn == Alpn::H2 || (c.alpn == Alpn::NoAlpn && c.assume_http2);
     let auth_ok = match (c.auth, c.ident) {
         (ClientAuth::NoAuth, _) => Some(true),
@@ -320,7 +330,15 @@ fn run_matrix(sim: &Sim, idx: u64) {
                 tls = tls.with_enabled_roots();
                 sim.probe("with-enabled-roots-mid-chain");
             }
-            let ep = match Endpoint::from_static("https://sim.test:443").tls_config(tls) {
+            let ep = match origin_variant {
+                0 => Endpoint::from_static("https://sim.test:443"),
+                1 => Endpoint::from_static("https://sim.test:443").origin("https://other.test".parse().unwrap()),
+                _ => Endpoint::from_static("https://wrong.test:443").origin("https://sim.test".parse().unwrap()),
+            };
+            if origin_variant > 0 {
+                sim.probe("endpoint-origin-differs-from-uri");
+            }
+            let ep = match ep.tls_config(tls) {
                 Ok(e) => e,
                 Err(e) => return Err(format!("client tls_config: {e}")),
             };
